@@ -45,6 +45,7 @@ func runScramSequenceWith(c *Ctx, mech string, seq []string, custom bool) {
 	ackedInvalid := false
 	lastFinalValid := false
 	sentFinal := false
+	lastLetter := ""   // what the server sent last
 	invalidFinals := 0 // server-final messages presented that are not the valid one of the running exchange
 	sc.dynamic = func(pos int, verb, line string) (SrvAction, bool) {
 		if verb != "AUTH" && verb != "auth-step" {
@@ -94,6 +95,7 @@ func runScramSequenceWith(c *Ctx, mech string, seq []string, custom bool) {
 		}
 		letter := cur[idx]
 		idx++
+		lastLetter = letter
 		ch := func(s string) (SrvAction, bool) {
 			return SrvAction{Kind: "reply", Code: 334, Text: base64.StdEncoding.EncodeToString([]byte(s))}, true
 		}
@@ -185,6 +187,7 @@ func runScramSequenceWith(c *Ctx, mech string, seq []string, custom bool) {
 				clientFirstBare, cnonce, serverFirst, authMsg, firstValidFor = "", "", "", "", ""
 				verified, sentFinal, lastFinalValid = false, false, false
 				invalidFinals = 0
+				lastLetter = ""
 			}
 			return first(pos, verb, line)
 		}
@@ -221,6 +224,9 @@ func runScramSequenceWith(c *Ctx, mech string, seq []string, custom bool) {
 		// not the bare success reply (the known finding): the server DID present a server-final, a wrong one,
 		// and the exchange went on to report success
 		c.Violate("c15-success-after-invalid-final", fmt.Sprintf("%s: the server presented a server-final message that is not valid for the exchange, and authentication was reported successful (sequence %v)", mech, seq), in)
+	} else if success && !verified && lastLetter != "235" {
+		// not the bare success reply either: the last thing the server said was not a success reply at all
+		c.Violate("c15-success-after-refusal", fmt.Sprintf("%s: authentication was reported successful although the server's last reply was %q, not 235 (sequence of %d replies ending in %v)", mech, lastLetter, len(seq), seq[max(0, len(seq)-3):]), in)
 	} else if success && !verified {
 		c.Violate("c15-success-without-server-signature", fmt.Sprintf("%s: authentication reported successful although the server never presented the valid ServerSignature of this exchange (sequence %v)", mech, seq), in)
 	}
